@@ -262,7 +262,12 @@ def jobs(tier):
         # two variables in one dictionary (a signed and an unsigned one)
         out.append(dict(func="int_types", params=dict(doc_type=doc, dest_kind="stream", negative=1,
                                                      codes=[0x03, 0x07]), weight=100))
-        for n in ((1, 3) if tier == "quick" else (1, 2, 3, 8, 20)):
+        if tier == "thorough":
+            for codes in ([0x02, 0x05, 0x10], [0x04, 0x15, 0x1B, 0x06], [0x12, 0x13, 0x14, 0x16, 0x18]):
+                for neg in ((0, 2) if len(codes) < 5 else (0,)):
+                    out.append(dict(func="int_types", params=dict(doc_type=doc, dest_kind="stream", negative=neg,
+                                                                 codes=codes), weight=4 ** len(codes)))
+        for n in ((1, 3) if tier == "quick" else (1, 2, 3, 8, 20, 50)):
             out.append(dict(func="structure", params=dict(doc_type=doc, nmembers=n), weight=n))
         out.append(dict(func="destinations", params=dict(doc_type=doc)))
         out.append(dict(func="booleans", params=dict(doc_type=doc)))
@@ -283,7 +288,7 @@ META = dict(
     level_note="Structure enumerated by the harness dictionaries; bit rate concrete (multiples of 1000); REAL defaults "
                "and Factor concrete samples.",
     bounds=dict(quick="16 integer types x {EDS, DCF} x {stream, file, stdout} (+ negative defaults/values of signed "
-                      "types); records/arrays of 1 and 3 members", thorough="records/arrays up to 20 members"),
+                      "types); records/arrays of 1 and 3 members", thorough="records/arrays up to 50 members; dictionaries with 3-5 symbolic integer variables of different types together"),
     outside_bounds=["indexes outside the communication/manufacturer/profile areas", "symbolic REAL / factor values",
                     "relative ($NODEID) spelling preserved (only the resolved value is compared)"],
     assumptions=[],
